@@ -212,6 +212,9 @@ var corpus = []struct{ name, src string }{
 	{"laxeq-method", "def lq(a: String, b: Int): bool then a.=~(b)\nprintln(lq(\"a\", 1).inspect)\n"},
 	{"waitgroup-negative", "using Std::Sync::WaitGroup\nw := WaitGroup(0)\ndo\n  w.end\ncatch e\n  println(\"err\")\nend\n"},
 	{"hash-literal-range-key", "h := { (1...5) => 1 }\nprintln(h.length.inspect)\n"},
+	{"two-awaits-in-one-expression", "async def af01(a: Int): Int then a + 1\nasync def ag01(a: Int): Int\n  return (await af01(a)) + (await af01(1))\nend\nprintln(ag01(3).await_sync.inspect)\n"},
+	{"closure-reading-ivar-in-method", "class Foo01\n  attr n: Int\n  init(k: Int)\n    @n = k\n  end\n  def twice(a: Int): Int\n    f := -> @n * 2\n    f.() + a\n  end\nend\nprintln(Foo01(4).twice(1).inspect)\n"},
+	{"generator-yield-inside-for-in-over-generator", "def *g01(a: Int): Int\n  yield 1\n  2\nend\ndef *h01(a: Int): Int\n  for e in g01(a)\n    yield e * 2\n  end\n  1\nend\nfor e in h01(2)\n  println(e)\nend\n"},
 	{"neg-min-small-int", "def ng(a: Int): Int then -a\nprintln(ng(-9223372036854775807 - 1).inspect)\n"},
 }
 
